@@ -21,6 +21,7 @@ import os
 import queue
 import re
 import shutil
+import signal
 import sys
 import tempfile
 import threading
@@ -91,6 +92,8 @@ ASSUMPTIONS = [
     'has a raising __repr__ (they do on the pristine tree); only clear_config() and what follows '
     'it are asserted, and the harness flag that makes repr raise is reset before observing on '
     'both sides',
+    'a clear_config() that has not returned after 13-15 s is a violation (clear-did-not-return); '
+    'a correct clear takes well under a millisecond',
     'exceptions are compared by their first builtin class in the MRO only, never by message',
     'reference cycles between bindings (f.p = @f()) are excluded by construction (references only '
     'point to probes later in a fixed order; macros hold literals only)',
@@ -106,7 +109,7 @@ FLOORS = {'nontrivial': (0.15, _S), 'pre:locked': (0.1, _S), 'pre:singleton-cach
           'clear:inside-0-scopes': (0.3, _S), 'clear:inside-1-scopes': (0.1, _S),
           'clear:inside-2-scopes': (0.1, _S), 'clear:call-pos': (0.12, _S), 'clear:call-kw': (0.12, _S),
           'clear:call-default': (0.12, _S), 'clear:on-worker-thread': (0.15, _S),
-          'hist:hook-registered': (0.08, _S), 'hist:in-worker-singleton': (0.08, _S), 'hist:const-gin-namespace': (0.05, _S),
+          'hist:hook-registered': (0.08, _S), 'hist:operative-read-failed': (0.03, _S), 'hist:in-worker-singleton': (0.08, _S), 'hist:const-gin-namespace': (0.05, _S),
           'hist:const-value-is-REQUIRED-sentinel': (0.03, _S),
           'hist:flaky-in-operative-record-then-broken': (0.02, _S), 'hist:enum-ok': (0.08, _S), 'hist:pfile-failed': (0.08, _S), 'hist:pfile-ok': (0.05, _S),
           'hist:pfile-failed-with-faulty-include': (0.02, _S)}
@@ -242,6 +245,17 @@ class Flaky:
     return '<Flaky>'
 
 
+class WorkerStuck(RuntimeError):
+  pass
+
+
+class ClearHung(BaseException):
+  """Raised in the main thread by SIGALRM when clear_config() has not returned in time."""
+
+
+CLEAR_TIMEOUT_S = 15    # a correct clear_config returns in well under a millisecond
+
+
 class Worker:
   """One long-lived worker thread (a thread fed through a queue): ops marked 'worker' run there,
   one at a time, while the caller waits - no interleaving, only a different thread identity."""
@@ -260,11 +274,11 @@ class Worker:
         box.append(('exc', e))
       done.set()
 
-  def do(self, fn):
+  def do(self, fn, timeout=30):
     box, done = [], threading.Event()
     self.q.put((fn, box, done))
-    if not done.wait(30):
-      raise RuntimeError('worker thread did not answer')
+    if not done.wait(timeout):
+      raise WorkerStuck('worker thread did not answer within %ss' % timeout)
     kind, value = box[0]
     if kind == 'exc':
       raise value
@@ -542,7 +556,8 @@ class Machine:
       # programmatic binding of a Flaky object, then the call that puts it in the operative record
       # mode 0: bind only; 1: bind + call; 2: bind + call, and the repr breaks right afterwards
       _, sc, fn, pa, mode = op
-      mode = int(mode) % 3
+      # mode 3: as 2, then operative_config_str() is read and expected to fail
+      mode = int(mode) % 4
       call_it = mode >= 1
       scope = SCOPES[sc % len(SCOPES)]
       name = FNS[fn % len(FNS)]
@@ -560,8 +575,16 @@ class Machine:
         if call_it:
           self.n_calls += 1
           self.flaky_called = True
-          if mode == 2:
+          if mode >= 2:
             self.run(['break_repr'])
+          if mode == 3:
+            self.run(['oper'])
+      return out
+    if k == 'oper':
+      # a read of the operative config on its own; with a recorded object whose repr raises this
+      # is a FAILED operation (and must leave nothing behind that hampers the clear)
+      out = self.attempt(lambda: ADDR.sub('0x', gin.operative_config_str()))
+      self.labels.add('hist:operative-read-ok' if out[0] == 'ok' else 'hist:operative-read-failed')
       return out
     if k == 'break_repr':
       BROKEN[0] = True
@@ -910,15 +933,32 @@ def history_side(case):
   cleared = {'exc': None}
 
   def do_clear():
+    # The clear stays on its designated thread (scope stacks and some caches are per thread); a
+    # clear that does not return becomes a violation instead of a stuck child: SIGALRM interrupts
+    # a main-thread clear, a bounded wait covers a worker-thread clear.
+    def alarm(signum, frame):
+      raise ClearHung()
+    old = signal.signal(signal.SIGALRM, alarm)
+    signal.setitimer(signal.ITIMER_REAL, CLEAR_TIMEOUT_S)
     try:
       if case.get('clear_thread') == 'worker':
-        res = worker().do(lambda: call_clear(case))
+        res = worker().do(lambda: call_clear(case), CLEAR_TIMEOUT_S - 2)
       else:
         res = call_clear(case)
       if res is not None:
         cleared['exc'] = 'returned %r' % (res,)
+    except (ClearHung, WorkerStuck):
+      signal.setitimer(signal.ITIMER_REAL, 0)
+      raise Violation('clear-did-not-return',
+                      'clear_config(clear_constants=%s) on the %s thread had not returned after '
+                      '%ss; labels of the history: %s' %
+                      (clear_constants, case.get('clear_thread') or 'main', CLEAR_TIMEOUT_S - 2,
+                       sorted(labels)))
     except Exception as e:  # pylint: disable=broad-except
       cleared['exc'] = '%s: %s' % (type(e).__name__, str(e)[:300])
+    finally:
+      signal.setitimer(signal.ITIMER_REAL, 0)
+      signal.signal(signal.SIGALRM, old)
     EPOCH[0] = 'obs'
   seeded = [] if clear_constants else [m.defined[n][1] for n in m.order
                                        if isinstance(m.defined[n][1], Token)]
@@ -1081,11 +1121,12 @@ def _op():
           st.tuples(st.just('call'), _i, _i),
           st.tuples(st.just('parse'), st.lists(_stmt(), min_size=1, max_size=2), st.none(),
                     st.just(False))).map(list)),
-      st.tuples(st.just('flaky'), _i, _i, _i, st.sampled_from([1, 1, 2, 2, 0])),
+      st.tuples(st.just('flaky'), _i, _i, _i, st.sampled_from([1, 1, 2, 2, 3, 3, 0])),
+      st.tuples(st.just('oper')),
       st.tuples(st.just('break_repr')),
       st.tuples(st.just('pfile'), _i, st.lists(_stmt(), min_size=1, max_size=3), pfault,
                 st.none() | st.tuples(_i, st.lists(_stmt(), min_size=0, max_size=2),
-                                      pfault).map(list)),
+                                      pfault | st.tuples(_i, _i).map(list)).map(list)),
       st.tuples(st.just('use_singleton'), _i, _i, _i, _i, _i),
       st.tuples(st.just('single_api'), _i, _b),
       st.tuples(st.just('query'), _i, _i, _i),
